@@ -387,4 +387,4 @@ def run(ctx):
               "numpy RandomState((s,e)).permutation(n) is a deterministic permutation of range(n)")
     ctx.bounded("C13.rt.cross", check_sampler_case, cases(ctx), bound="all N<=%d, W in {none,1..%d}, 4 modes, both samplers, epochs 0..1" % ((24, 6) if ctx.quick else (40, 8)),
                 text="run-time cross-check of the proved contracts on the real classes (replay oracle)",
-                nontrivial=lambda c: c["W"] not in (None, 1) and c["N"] % c["W"] != 0)
+                nontrivial=lambda c: c["W"] not in (None, 1) and c["N"] % c["W"] != 0, crosscheck=True)
